@@ -12,6 +12,7 @@ def parseOp (t : String) : Except String Op :=
   | ["sa", n] => pure (.statDa n)
   | ["ee"] => pure .editEfth
   | ["ad"] => pure .assignDir
+  | ["af"] => pure .assignFreq
   | ["pt", a, b] => match a.toNat?, b.toNat? with
     | some x, some y => pure (.partition x y)
     | _, _ => throw "bad pt"
@@ -22,7 +23,7 @@ def parseOp (t : String) : Except String Op :=
 
 def showObs : Option Obs → String
   | none => "-"
-  | some o => s!"{o.efth}:{o.dir}:{if o.attrKnown then 1 else 0}"
+  | some o => s!"{o.efth}:{o.dir}:{if o.attrKnown then 1 else 0}:{o.freq}"
 
 def opHistory (old : Bool) : P String := do
   let n ← nat
